@@ -10,6 +10,26 @@ from coop import Coop, ExecModel, Killed, Sched
 
 OUTCOMES = ["passed", "failed", "skipped"]
 
+_BY_COOP = {}
+
+
+class TimeShim:
+    """replaces the `time` module inside xdist.remote: run_one_test's two perf_counter()
+    calls return 0.0 and the scripted duration of the running test"""
+
+    def __init__(self, real):
+        self._real = real
+
+    def perf_counter(self):
+        for sched in list(_BY_COOP):
+            c = sched.current
+            if c is not None and c in _BY_COOP[sched]:
+                return _BY_COOP[sched][c].perf_counter()
+        return self._real.perf_counter()
+
+    def __getattr__(self, n):
+        return getattr(self._real, n)
+
 
 class FakePM:
     def getplugin(self, n):
@@ -43,6 +63,8 @@ class WkChannel:
 
     def send(self, obj):
         self.w.upwire.append(obj)
+        self.w.sent_index[id(obj)] = getattr(self.w.inter, "item_index", None)
+        self.w.sent_log.append(obj)
         if obj[0] == "workerfinished":
             self.w.exited = True       # nothing observable happens in the worker after this send
         self.w.on_send(obj)
@@ -67,6 +89,10 @@ class WorkerSim:
         self.upwire = collections.deque()      # events sent, not yet received by the controller side
         self.inbox = collections.deque()       # commands delivered by execnet, not yet handled
         self.ran = []                          # (index, next index or None) as passed to the protocol
+        self.sent_index = {}                   # id(event) -> item_index at send time
+        self.sent_log = []                     # keeps the event objects alive (ids stay unique)
+        self.dur_ms = {}                       # index -> reported duration in ms
+        self._clock_calls = 0
         self.dead = False
         self.exited = False
         self.on_crash = None
@@ -83,6 +109,17 @@ class WorkerSim:
         self.session = FakeSession(self.ids)
         self.main = Coop(sched, "main-" + wid, self._main)
         self.recv = Coop(sched, "recv-" + wid, self._recv)
+        if not isinstance(remote.time, TimeShim):
+            remote.time = TimeShim(remote.time)
+        _BY_COOP.setdefault(sched, {})[self.main] = self
+
+    def perf_counter(self):
+        """stand-in for time.perf_counter inside run_one_test: 0.0 before the protocol,
+        the scripted duration after it"""
+        self._clock_calls += 1
+        if self._clock_calls % 2 == 1:
+            return 0.0
+        return self.dur_ms.get(self.inter.item_index, 0) / 1000.0
 
     # ---- the stubbed test execution
     def _protocol(self, item, nextitem):
@@ -153,7 +190,7 @@ class WorkerSim:
         """advance the main thread until something observable happened (an entry
         taken from the queue, an event sent) or it blocks / exits"""
         if self.dead:
-            return
+            return False
         while self.main.runnable():
             before = (self.main.progress, len(self.inter.torun._items), self.chan.cb is None)
             self.main.resume()
@@ -161,7 +198,8 @@ class WorkerSim:
                 raise self.main.exc
             after = (self.main.progress, len(self.inter.torun._items), self.chan.cb is None)
             if before != after:
-                break
+                return True
+        return False
 
     def crash(self, from_inside=False):
         if self.dead:
@@ -181,8 +219,7 @@ class WorkerSim:
         M = self.remote.Marker.SHUTDOWN
         return ["S" if x is M else int(x) for x in self.inter.torun._items]
 
-    @staticmethod
-    def event_obs(ev):
+    def event_obs(self, ev):
         if ev == "END":
             return ["END"]
         name, kw = ev
@@ -192,7 +229,7 @@ class WorkerSim:
         if name == "collectionfinish":
             return [name]
         if name in ("logstart", "logfinish"):
-            return [name, int(kw["nodeid"].rsplit("#", 1)[1]) if "#" in kw["nodeid"] else kw["nodeid"]]
+            return [name, self.sent_index.get(id(ev))]
         if name == "testreport":
             r = kw["data"]["rep"]
             return [name, kw["data"]["item_index"], r.k, OUTCOMES.index(r.outcome)]
